@@ -104,7 +104,15 @@ Record world := mk_w {
 }.
 Definition world0 (nthreads : nat) : world := mk_w [] [root] [] (repeat stack0 nthreads) [] [].
 
-Record cfg := mk_cfg { cf_enabled : bool; cf_random : bool; cf_sampler : csampler }.
+(* the tracer's configuration: TracerConfig enabled, IdGenerator::IsRandom(), and the configured sampler as a
+   function of (the answer the scripted sampler would give at this call, parent context, trace id);
+   [cf_script] says that the sampler IS the scripted one *)
+Record cfg := mk_cfg {
+  cf_enabled : bool; cf_random : bool; cf_script : bool;
+  cf_samp : sresult -> span_ctx -> bytes -> sresult
+}.
+Definition cfg_of (enabled random : bool) (s : csampler) : cfg :=
+  mk_cfg enabled random (match s with CScript => true | _ => false end) (csample s).
 
 Definition stk_of (w : world) (t : nat) : stack := nth t (w_stks w) stack0.
 (* the calling thread's view as a C10 thread world *)
@@ -216,7 +224,7 @@ Definition do_start (cf : cfg) (w : world) (t : nat) (p : parent_opt) (gsid gtid
     (add_span w (mk_span ctx_invalid (zeros 8) false false []),
      OStart (mk_so active (cx_obs pa) ctx_invalid false 0 0 None))
   else
-    let b := new_span (csample (cf_sampler cf) scr) (cf_random cf) gsid gtid (resolve_parent active pa) in
+    let b := new_span (cf_samp cf scr) (cf_random cf) gsid gtid (resolve_parent active pa) in
     (add_span w (mk_span (b_ctx b) (b_psid b) (b_rec b) false (b_attrs b)),
      OStart (mk_so active (cx_obs pa) (b_ctx b) (b_rec b) 1 (b_tid_calls b)
                    (Some (b_seen_parent b, b_seen_tid b, seen_of (b_res b))))).
